@@ -24,6 +24,63 @@ def model_class_calls(fn):
     return out
 
 
+def dyn_delegations(fn, attr, env=None, depth=0, concrete=None):
+    """Calls `<self>.<attr>.<name>(...)` reached from fn, including the reflective form
+    `getattr(<self>.<attr>, <param>)(...)` inside private helpers of the class when the name arrives as a string constant:
+    [(call node, function name or None when the name is not a constant, function in which the call is written)].
+    `<self>.<attr>` may also be reached through a local alias or a zero-argument private accessor returning it."""
+    env = env or {}
+    out = []
+    sn = fn.self_name
+    cls = concrete or fn.cls
+
+    def is_base(e):
+        if is_self_attr(e, sn, attr):
+            return True
+        if isinstance(e, ast.Name):
+            d = single_def(fn.node, e.id)
+            return isinstance(d, ast.AST) and is_base(d)
+        if isinstance(e, ast.Call) and is_self_attr(e.func, sn) and not e.args and not e.keywords and cls is not None:
+            g = cls.lookup(e.func.attr)
+            if g is not None and g.name.startswith('_'):
+                rets = [r for r in walk_no_nested(g.node) if isinstance(r, ast.Return) and r.value is not None]
+                return bool(rets) and all(is_self_attr(r.value, g.self_name, attr) for r in rets)
+        return False
+
+    def const_of(e):
+        if isinstance(e, ast.Constant) and isinstance(e.value, str):
+            return e.value
+        if isinstance(e, ast.Name) and e.id in env:
+            return env[e.id]
+        return None
+
+    for c in walk_no_nested(fn.node):
+        if not isinstance(c, ast.Call):
+            continue
+        f = c.func
+        if isinstance(f, ast.Attribute) and is_base(f.value):
+            out.append((c, f.attr, fn))
+            continue
+        g_ = f
+        if isinstance(f, ast.Name):
+            d = single_def(fn.node, f.id)
+            g_ = d if isinstance(d, ast.AST) else f
+        if isinstance(g_, ast.Call) and isinstance(g_.func, ast.Name) and g_.func.id == 'getattr' and len(g_.args) == 2 and is_base(g_.args[0]):
+            out.append((c, const_of(g_.args[1]), fn))
+            continue
+        if isinstance(f, ast.Attribute) and is_self_attr(f, sn) and cls is not None and depth < 3:
+            h = cls.lookup(f.attr)
+            if h is not None and h.name.startswith('_') and not h.name.startswith('__') and h is not fn and h.kind == 'method':
+                sub = {}
+                for p_, a in zip(h.params[1:], c.args):
+                    v = const_of(a)
+                    if v is not None:
+                        sub[p_] = v
+                if sub:
+                    out += dyn_delegations(h, attr, sub, depth + 1, cls)
+    return out
+
+
 def params_dicts(fn):
     """[(assign stmt, {key: value expr})] for `self._params = {...}` in fn."""
     out = []
@@ -68,9 +125,16 @@ def d1(ctx, rep):
             raise AnalysisError(f'anchor vanished: ScipyModel.{meth}')
         calls = model_class_calls(m)
         rets = [n for n in walk_no_nested(m.node) if isinstance(n, ast.Return) and n.value is not None]
-        good = bool(calls) and all(f == want for _c, f in calls)
-        rep.check('D1.delegate', m, calls[0][0] if calls else m.node.name, good, f'{meth} -> MODEL_CLASS.{want}',
-                  f'{meth} delegates to MODEL_CLASS.{[f for _c, f in calls]} instead of .{want}', construct=f'ScipyModel.{meth} callee')
+        dyn = dyn_delegations(m, 'MODEL_CLASS', concrete=base)
+        names = [f for _c, f, _g in dyn]
+        if not dyn or any(f is None for f in names):
+            rep.undecided('D1.delegate', m, m.node.name, f'{meth}: the SciPy function it evaluates is not derived (no direct or constant-named call of MODEL_CLASS.<f>)',
+                          construct=f'ScipyModel.{meth} callee')
+        else:
+            rep.check('D1.delegate', m, dyn[0][0], all(f == want for f in names), f'{meth} -> MODEL_CLASS.{want}',
+                      f'{meth} delegates to MODEL_CLASS.{names} instead of .{want}', construct=f'ScipyModel.{meth} callee')
+        if not calls:
+            continue
         for c, f in calls:
             star = any(k.arg is None and is_self_attr(k.value, m.self_name, '_params') for k in c.keywords)
             rep.check('D1.delegate', m, c, star, 'passes **self._params', 'the stored parameters are not passed to the SciPy function',
@@ -97,9 +161,9 @@ def d1(ctx, rep):
         is_dist = dotted in K.SCIPY_DIST_PARAMS
         for meth, want in DELEGATION.items():
             m = c.lookup(meth)
-            uses_model_class = bool(model_class_calls(m))
+            uses_model_class = bool(model_class_calls(m)) or bool(dyn_delegations(m, 'MODEL_CLASS', concrete=c))
             if uses_model_class and not is_dist:
-                rep.bad('D1.delegate', m, model_class_calls(m)[0][0], f'{c.name} inherits {m.short}, which calls MODEL_CLASS.{want}(x, **params), but '
+                rep.bad('D1.delegate', m, (model_class_calls(m) or [(m.node.name,)])[0][0], f'{c.name} inherits {m.short}, which calls MODEL_CLASS.{want}(x, **params), but '
                         f'{c.name}.MODEL_CLASS is {dotted} (not a distribution object with that calling convention): TypeError for every '
                         'fitted model', construct=f'{c.name}.{meth}: self.MODEL_CLASS.{want}(X, **self._params)')
             elif uses_model_class:
@@ -109,6 +173,24 @@ def d1(ctx, rep):
                 wantk = KDE_DELEGATION.get(meth)
                 calls = [x for x in walk_no_nested(m.node) if isinstance(x, ast.Call) and isinstance(x.func, ast.Attribute)
                          and is_self_attr(x.func.value, m.self_name, '_model')]
+                dynm = dyn_delegations(m, '_model', concrete=c)
+                if wantk is not None and not calls and dynm and all(f is not None for _x, f, _g in dynm):
+                    calls = [x for x, _f, _g in dynm if isinstance(x.func, ast.Attribute)]
+                    if len(calls) != len(dynm):
+                        calls = []
+                sup = [x for x in walk_no_nested(m.node) if isinstance(x, ast.Call) and isinstance(x.func, ast.Attribute) and x.func.attr == meth
+                       and isinstance(x.func.value, ast.Call) and isinstance(x.func.value.func, ast.Name) and x.func.value.func.id == 'super']
+                if sup and not is_dist:
+                    parents = [k for k in c.mro()[1:] if meth in k.methods]
+                    pm = parents[0].methods[meth] if parents else None
+                    if pm is not None and (model_class_calls(pm) or dyn_delegations(pm, 'MODEL_CLASS', concrete=c)):
+                        rep.bad('D1.delegate', m, sup[0], f'{c.name}.{meth} falls back to {pm.short}, which calls MODEL_CLASS.{want}(x, **params), but '
+                                f'{c.name}.MODEL_CLASS is {dotted} (not a distribution object with that calling convention): TypeError for every '
+                                'fitted model', construct=f'{c.name}.{meth}: self.MODEL_CLASS.{want}(X, **self._params)')
+                        continue
+                if wantk is not None and not calls:
+                    rep.undecided('D1.delegate', m, m.node.name, f'{c.name}.{meth}: no direct call on the fitted model object was found', construct=f'{c.name}.{meth}')
+                    continue
                 if wantk is None:
                     rep.ok('D1.delegate', m, m.node.name, f'{c.name}.{meth} is implemented by the family itself', construct=f'{c.name}.{meth}')
                 else:
@@ -118,6 +200,9 @@ def d1(ctx, rep):
                     if good and wantk == 'resample':
                         par = calls[0]._parent
                         first = isinstance(par, ast.Subscript) and const_value(par.slice) == 0
+                        if isinstance(par, ast.Assign) and isinstance(par.targets[0], ast.Name):
+                            uses = [u for u in walk_no_nested(m.node) if isinstance(u, ast.Name) and u.id == par.targets[0].id and isinstance(u.ctx, ast.Load)]
+                            first = bool(uses) and all(isinstance(u._parent, ast.Subscript) and const_value(u._parent.slice) == 0 for u in uses)
                         sz = kwarg(calls[0], 'size', 0)
                         rep.check('D1.delegate', m, calls[0], first and isinstance(sz, ast.Name) and sz.id == m.params[1],
                                   'resample(size=n_samples)[0]', 'the KDE sample is not the first row of resample(size=n_samples)',
@@ -137,12 +222,15 @@ def d1(ctx, rep):
     uni = prog.cls(UNI)
     for meth in ('probability_density', 'log_probability_density', 'cumulative_distribution', 'percent_point', 'sample'):
         m = uni.methods[meth]
-        calls = [x for x in walk_no_nested(m.node) if isinstance(x, ast.Call) and isinstance(x.func, ast.Attribute)
-                 and is_self_attr(x.func.value, m.self_name, '_instance')]
-        good = bool(calls) and all(x.func.attr == meth for x in calls) and all(
-            [getattr(a, 'id', None) for a in x.args] == m.params[1:] for x in calls)
-        rep.check('D1.alias', m, calls[0] if calls else m.node.name, good, f'wrapper.{meth} -> _instance.{meth}',
-                  f'the selecting wrapper forwards {meth} to _instance.{[x.func.attr for x in calls]}')
+        dyn = dyn_delegations(m, '_instance', concrete=uni)
+        names = [f for _x, f, _g in dyn]
+        if not dyn or any(f is None for f in names):
+            rep.undecided('D1.alias', m, m.node.name, f'wrapper.{meth}: the method of the selected instance it forwards to is not derived')
+            continue
+        direct = [x for x, _f, g in dyn if g is m and isinstance(x.func, ast.Attribute)]
+        good = all(f == meth for f in names) and all([getattr(a, 'id', None) for a in x.args] == m.params[1:] for x in direct)
+        rep.check('D1.alias', m, dyn[0][0], good, f'wrapper.{meth} -> _instance.{meth}',
+                  f'the selecting wrapper forwards {meth} to _instance.{names}')
 
 
 def d2(ctx, rep):
@@ -155,38 +243,55 @@ def d2(ctx, rep):
         dotted = prog.resolve(mc[0].module, mc[1]) if mc else None
         want = K.SCIPY_DIST_PARAMS.get(dotted)
         fit, fitc = c.lookup('_fit'), c.lookup('_fit_constant')
+        from ..dictkeys import Env, const_tuple, evaluate, stored_params
         if want is None:
             # KDE: both branches must fill the same keys
-            k1 = [set(d) for _s, d in params_dicts(fit)]
-            k2 = [set(d) for _s, d in params_dicts(fitc)]
-            rep.check('D2.keys', fit, fit.node.name, bool(k1) and bool(k2) and all(x == k1[0] for x in k1 + k2),
-                      f'{c.name}: _fit and _fit_constant fill the same keys {sorted(k1[0]) if k1 else "?"}',
-                      f'{c.name}: _fit fills {k1}, _fit_constant fills {k2}', construct=f'{c.name} keys')
+            k1 = [d.keys for _s, d in stored_params(ctx, fit, c)]
+            k2 = [d.keys for _s, d in stored_params(ctx, fitc, c)]
+            if not k1 or not k2 or any(k is None for k in k1 + k2):
+                rep.undecided('D2.keys', fit, fit.node.name, f'{c.name}: keys stored by _fit / _fit_constant not derivable', construct=f'{c.name} keys')
+            else:
+                rep.check('D2.keys', fit, fit.node.name, all(x == k1[0] for x in k1 + k2),
+                          f'{c.name}: _fit and _fit_constant fill the same keys {sorted(k1[0])}',
+                          f'{c.name}: _fit fills {[sorted(k) for k in k1]}, _fit_constant fills {[sorted(k) for k in k2]}', construct=f'{c.name} keys')
             continue
         for f, nm in ((fit, '_fit'), (fitc, '_fit_constant')):
-            ds = params_dicts(f)
+            ds = stored_params(ctx, f, c)
             if not ds:
                 # StudentT._fit_constant = _fit + item store
                 calls_fit = any(isinstance(x, ast.Call) and is_self_attr(x.func, f.self_name, '_fit') for x in walk_no_nested(f.node))
                 stores = [s for s in walk_no_nested(f.node) if isinstance(s, ast.Assign) and isinstance(s.targets[0], ast.Subscript)
                           and is_self_attr(s.targets[0].value, f.self_name, '_params')]
                 keys_ok = all(const_value(s.targets[0].slice) in want for s in stores)
-                rep.check('D2.keys', f, f.node.name, calls_fit and keys_ok, f'{c.name}.{nm} = _fit plus stores into existing keys',
-                          f'{c.name}.{nm} does not build the parameter dict', construct=f'{c.name}.{nm} keys')
+                if calls_fit:
+                    rep.check('D2.keys', f, f.node.name, keys_ok, f'{c.name}.{nm} = _fit plus stores into existing keys',
+                              f'{c.name}.{nm} stores a key that {dotted} does not take', construct=f'{c.name}.{nm} keys')
+                else:
+                    rep.undecided('D2.keys', f, f.node.name, f'{c.name}.{nm}: no store into self._params found', construct=f'{c.name}.{nm} keys')
                 continue
             for s, d in ds:
-                rep.check('D2.keys', f, s, set(d) == set(want), f'{c.name}.{nm} keys = {want}',
-                          f'{c.name}.{nm} fills {sorted(map(str, d))}, {dotted} takes {want}', construct=f'{c.name}.{nm} keys')
+                if d.keys is None:
+                    rep.undecided('D2.keys', f, s, f'{c.name}.{nm}: keys of the stored dict not derivable', construct=f'{c.name}.{nm} keys')
+                    continue
+                rep.check('D2.keys', f, s, set(d.keys) == set(want), f'{c.name}.{nm} keys = {want}',
+                          f'{c.name}.{nm} fills {sorted(map(str, d.keys))}, {dotted} takes {want}', construct=f'{c.name}.{nm} keys')
+                # dict(zip(NAMES, <dist>.fit(...))): the names label the positions of the fit result
+                if d.zipped is not None and d.order is not None:
+                    rep.check('D2.keys', f, s, tuple(d.order) == tuple(want), f'names {d.order} label the positions of {dotted.split(".")[-1]}.fit()',
+                              f'the fit result of {dotted.split(".")[-1]} ({want}) is labelled {d.order}: parameters are stored under the wrong names',
+                              construct=f"{c.name}.{nm} positions")
                 # unpack order of <dist>.fit(...)
-                for key, v in d.items():
-                    if isinstance(v, ast.Name):
-                        src = _unpack_source(prog, f, v.id, dotted)
-                        if src is not None:
-                            pos, total = src
-                            if total == len(want):
-                                rep.check('D2.keys', f, s, want[pos] == key, f"'{key}' <- position {pos} of {dotted.split('.')[-1]}.fit ({want[pos]})",
-                                          f"'{key}' receives position {pos} of {dotted.split('.')[-1]}.fit(), which is {want[pos]}",
-                                          construct=f"{c.name}.{nm} '{key}'")
+                if isinstance(s.value, ast.Dict):
+                    for k_, v in zip(s.value.keys, s.value.values):
+                        key = const_value(k_) if k_ is not None else None
+                        if isinstance(v, ast.Name) and isinstance(key, str):
+                            src = _unpack_source(prog, f, v.id, dotted)
+                            if src is not None:
+                                pos, total = src
+                                if total == len(want):
+                                    rep.check('D2.keys', f, s, want[pos] == key, f"'{key}' <- position {pos} of {dotted.split('.')[-1]}.fit ({want[pos]})",
+                                              f"'{key}' receives position {pos} of {dotted.split('.')[-1]}.fit(), which is {want[pos]}",
+                                              construct=f"{c.name}.{nm} '{key}'")
 
 
 def _unpack_source(prog, fn, name, dotted):
@@ -225,45 +330,72 @@ def d3(ctx, rep):
     step = [c for c in walk_no_nested(cdf.node) if isinstance(c, ast.Compare) and len(c.ops) == 1
             and any(is_self_attr(x, cdf.self_name, '_constant_value') for x in ast.walk(c))]
     ones = any(isinstance(c, ast.Call) and call_name(c) == 'ones' for c in walk_no_nested(cdf.node))
+    zeros = any(isinstance(c, ast.Call) and call_name(c) == 'zeros' for c in walk_no_nested(cdf.node))
     zero_store = [s for s in walk_no_nested(cdf.node) if isinstance(s, ast.Assign) and isinstance(s.targets[0], ast.Subscript) and const_value(s.value) == 0]
-    good = bool(step) and ones and bool(zero_store) and isinstance(step[0].ops[0], ast.Lt) and isinstance(step[0].left, ast.Name) \
-        and step[0].left.id == cdf.params[1]
-    rep.check('D3.degenerate', cdf, step[0] if step else cdf.node.name, good, 'CDF = 1 except 0 where X < c (right-continuous unit step at c)',
-              'the point-mass CDF is not the right-continuous unit step (0 strictly below c, 1 at and above c)', construct='unit step')
+    one_store = [s for s in walk_no_nested(cdf.node) if isinstance(s, ast.Assign) and isinstance(s.targets[0], ast.Subscript) and const_value(s.value) == 1]
+    recognised = bool(step) and isinstance(step[0].left, ast.Name) and step[0].left.id == cdf.params[1] and (
+        (ones and zero_store and not zeros) or (zeros and one_store and not ones))
+    if not recognised:
+        rep.undecided('D3.degenerate', cdf, cdf.node.name, 'the form "ones, then 0 where X < c" (or its mirror image) was not found: the step is not derived',
+                      construct='unit step')
+    else:
+        op = type(step[0].ops[0])
+        good = (op is ast.Lt) if ones else (op is ast.GtE)
+        rep.check('D3.degenerate', cdf, step[0], good, 'CDF = 1 except 0 where X < c (right-continuous unit step at c)',
+                  'the point-mass CDF is not the right-continuous unit step (0 strictly below c, 1 at and above c)', construct='unit step')
     for nm, expect in (('_constant_percent_point', 'full'), ('_constant_sample', 'full')):
         m = uni.methods[nm]
         rets = [n for n in walk_no_nested(m.node) if isinstance(n, ast.Return)]
-        good = len(rets) == 1 and isinstance(rets[0].value, ast.Call) and call_name(rets[0].value) == 'full' \
-            and len(rets[0].value.args) == 2 and is_self_attr(rets[0].value.args[1], m.self_name, '_constant_value')
-        rep.check('D3.degenerate', m, rets[0] if rets else m.node.name, good, f'{nm} returns the constant', f'{nm} does not return the constant value')
+        rv = _resolve_local(m, rets[0].value) if len(rets) == 1 and rets[0].value is not None else None
+        # a private helper with a single return stands for its returned expression
+        owner = m
+        if isinstance(rv, ast.Call) and is_self_attr(rv.func, m.self_name):
+            h = uni.lookup(rv.func.attr)
+            hr = [n for n in walk_no_nested(h.node) if isinstance(n, ast.Return) and n.value is not None] if h is not None and h.name.startswith('_') else []
+            if len(hr) == 1:
+                rv, owner = _resolve_local(h, hr[0].value), h
+        if isinstance(rv, ast.Call) and call_name(rv) in ('full', 'full_like', 'repeat', 'tile') and len(rv.args) >= 2:
+            good = is_self_attr(rv.args[1], owner.self_name, '_constant_value') or (call_name(rv) in ('repeat', 'tile') and is_self_attr(rv.args[0], owner.self_name, '_constant_value'))
+            rep.check('D3.degenerate', m, rets[0], good, f'{nm} returns the constant', f'{nm} does not return the constant value')
+        else:
+            rep.undecided('D3.degenerate', m, rets[0] if rets else m.node.name, f'{nm}: the returned expression is not an array filled with one value')
     # per family: _is_constant holds on the dict of _fit_constant, _extract_constant returns the constant's key
     base = prog.cls(SCIPY)
     for c in base.subclasses():
         if c.is_abstract():
             continue
         fc, isc, exc = c.lookup('_fit_constant'), c.lookup('_is_constant'), c.lookup('_extract_constant')
-        ds = params_dicts(fc)
-        d = ds[0][1] if ds else {}
+        from ..dictkeys import Env, deref, stored_params
+        ds = stored_params(ctx, fc, c)
+        dk = ds[0][1] if ds else None
         if not ds and any(isinstance(x, ast.Call) and is_self_attr(x.func, fc.self_name, '_fit') for x in walk_no_nested(fc.node)):
-            fds = params_dicts(c.lookup('_fit'))
-            d = {k: ast.Name(id='<from _fit>', ctx=ast.Load()) for k in (fds[0][1] if fds else {})}
+            fds = stored_params(ctx, c.lookup('_fit'), c)
+            dk = fds[0][1] if fds else None
+            if dk is not None and dk.keys is not None:
+                dk = type(dk)(dk.keys, dk.order, None, {})  # values come from the optimiser: not constants
+        keys = set(dk.keys) if dk is not None and dk.keys is not None else None
+        d = dict(dk.values or {}) if keys is not None else {}
+        env0 = Env(fc, c)
         for s in walk_no_nested(fc.node):
             if isinstance(s, ast.Assign) and isinstance(s.targets[0], ast.Subscript) and is_self_attr(s.targets[0].value, fc.self_name, '_params'):
-                d = dict(d)
-                d[const_value(s.targets[0].slice)] = s.value
+                k_ = const_value(s.targets[0].slice)
+                if keys is not None and isinstance(k_, str):
+                    keys.add(k_)
+                    d[k_] = (env0, s.value)
+        val = lambda k: deref(ctx, *d[k])[1] if k in d else None
         rets = [n for n in walk_no_nested(isc.node) if isinstance(n, ast.Return) and n.value is not None]
         verdict = None
-        if len(rets) == 1 and isinstance(rets[0].value, ast.Compare) and len(rets[0].value.ops) == 1 and isinstance(rets[0].value.ops[0], ast.Eq):
+        if keys is not None and len(rets) == 1 and isinstance(rets[0].value, ast.Compare) and len(rets[0].value.ops) == 1 and isinstance(rets[0].value.ops[0], ast.Eq):
             l, r = rets[0].value.left, rets[0].value.comparators[0]
             kl, kr = _param_key(l, isc), _param_key(r, isc)
             if kl and kr:
-                verdict = kl in d and kr in d and _same_value(fc, d[kl], d[kr])
+                verdict = (ast.dump(val(kl)) == ast.dump(val(kr))) if (kl in d and kr in d) else (False if (kl not in keys or kr not in keys) else None)
             elif kl and const_value(r) in (0, 0.0):
-                verdict = kl in d and _is_zero_for_constant(fc, d[kl]) if kl in d else (None if not d else False)
+                verdict = _is_zero_for_constant(ctx, d[kl]) if kl in d else (False if kl not in keys else None)
             elif isinstance(l, ast.Call) and call_name(l) == 'len' and const_value(r) == 1:
                 k = [x for x in ast.walk(l) if _param_key(x, isc)]
                 kk = _param_key(k[0], isc) if k else None
-                verdict = kk in d and _is_repeated_single(d[kk]) if kk else None
+                verdict = (_is_repeated_single(val(kk)) if kk in d else (False if kk not in keys else None)) if kk else None
         if verdict is None:
             rep.undecided('D3.degenerate', isc, rets[0] if rets else isc.node.name, f'{c.name}: relation between _is_constant and _fit_constant not derivable',
                           construct=f'{c.name}._is_constant')
@@ -276,15 +408,17 @@ def d3(ctx, rep):
             e = erets[0].value
             k = _param_key(e, exc) or (_param_key(e.value, exc) if isinstance(e, ast.Subscript) else None)
             if k and k in d:
-                isconst = _is_the_constant(fc, d[k])
+                isconst = _is_the_constant(val(k))
                 if isconst is None:
                     rep.undecided('D3.degenerate', exc, erets[0], f"{c.name}: whether _fit_constant stores the constant under '{k}' is not derivable",
                                   construct=f'{c.name}._extract_constant')
                 else:
                     rep.check('D3.degenerate', exc, erets[0], isconst, f"{c.name}: the constant is stored under '{k}' and read back from it",
                               f"{c.name}: _extract_constant reads '{k}', where _fit_constant does not store the constant", construct=f'{c.name}._extract_constant')
-            elif k:
+            elif k and keys is not None and k not in keys:
                 rep.bad('D3.degenerate', exc, erets[0], f"{c.name}: _extract_constant reads '{k}', which _fit_constant does not fill", construct=f'{c.name}._extract_constant')
+            elif k:
+                rep.undecided('D3.degenerate', exc, erets[0], f"{c.name}: what _fit_constant stores under '{k}' is not derivable", construct=f'{c.name}._extract_constant')
 
 
 def _param_key(e, fn):
@@ -301,33 +435,28 @@ def _resolve_local(fn, e):
     return e
 
 
-def _same_value(fn, a, b):
-    a, b = _resolve_local(fn, a), _resolve_local(fn, b)
-    return ast.dump(a) == ast.dump(b)
-
-
-def _is_zero_for_constant(fn, e):
-    e = _resolve_local(fn, e)
+def _is_zero_for_constant(ctx, bound):
+    from ..dictkeys import deref
+    env, e = deref(ctx, *bound)
     if const_value(e) in (0, 0.0):
         return True
     # max(X) - min(X) of the same X is zero on constant data
     if isinstance(e, ast.BinOp) and isinstance(e.op, ast.Sub):
-        e = ast.BinOp(left=_resolve_local(fn, e.left), op=e.op, right=_resolve_local(fn, e.right))
-    if isinstance(e, ast.BinOp) and isinstance(e.op, ast.Sub) and isinstance(e.left, ast.Call) and isinstance(e.right, ast.Call):
-        if {call_name(e.left), call_name(e.right)} == {'max', 'min'} and [ast.dump(a) for a in e.left.args] == [ast.dump(a) for a in e.right.args]:
+        l, r = deref(ctx, env, e.left)[1], deref(ctx, env, e.right)[1]
+        if isinstance(l, ast.Call) and isinstance(r, ast.Call) and {call_name(l), call_name(r)} == {'max', 'min'} \
+                and [ast.dump(a) for a in l.args] == [ast.dump(a) for a in r.args]:
             return True
     return False
 
 
-def _is_the_constant(fn, e):
-    e = _resolve_local(fn, e)
+def _is_the_constant(e):
     if isinstance(e, ast.Subscript) and isinstance(e.value, ast.Call) and call_name(e.value) == 'unique' and const_value(e.slice) == 0:
         return True
-    if isinstance(e, ast.Call) and call_name(e) in ('min', 'max', 'mean', 'median') and e.args and isinstance(e.args[0], ast.Name) \
-            and e.args[0].id == fn.params[1]:
+    if isinstance(e, ast.Call) and call_name(e) in ('min', 'max', 'mean', 'median') and e.args and isinstance(e.args[0], ast.Name):
         return True
     if isinstance(e, ast.BinOp) and isinstance(e.op, ast.Mult) and isinstance(e.left, ast.List) and len(e.left.elts) == 1:
-        return _is_the_constant(fn, e.left.elts[0])
+        inner = e.left.elts[0]
+        return True if isinstance(inner, ast.Name) else _is_the_constant(inner)
     if isinstance(e, (ast.Constant,)):
         return False
     if isinstance(e, ast.BinOp):
